@@ -162,7 +162,7 @@ def comments (o : Opts) (a : Archive) : M (List Comment) :=
     -- `DocxReader.comments`
     (match filesOfType files [lit "comments"] with
       | [] => pure (none, [])
-      | cf :: _ => (a.readXml cf.path) >>= fun root => pure (some cf, root.kids)) >>= fun ce =>
+      | cf :: _ => (a.readXml cf.path) >>= fun root => pure (some cf, root.kids.filter Xml.isElem)) >>= fun ce =>
     if dc.ranges.length != ce.2.length then pure [] else
     if ce.2.isEmpty then pure [] else
     match ce.1 with
